@@ -106,6 +106,32 @@ def epsilon_case(res, rng):
                       "index_.query(X, k, epsilon=0.0) returns", case)
 
 
+def unfilled_case(res, rng):
+    """slots for which no neighbour was found (-1) must not become stored entries, whatever value the distance correction gives
+    them (cosine / dot map the inf of an unfilled slot to 1.0)"""
+    for metric, n, k, zero_q in (("cosine", 40, 5, True), ("cosine", 4, 6, False), ("euclidean", 4, 6, False)):
+        X = np.abs(rng.standard_normal((n, 4))).astype(np.float32) + np.float32(0.1)
+        Q = np.abs(rng.standard_normal((6, 4))).astype(np.float32) + np.float32(0.1)
+        if zero_q:
+            Q[1] = 0.0; Q[4] = 0.0
+        case = {"metric": metric, "n": n, "k": k, "zero_norm_queries": zero_q}
+        try:
+            t = PyNNDescentTransformer(n_neighbors=k, metric=metric, random_state=int(rng.integers(10 ** 6)))
+            t.fit(X)
+            qi, qd = t.index_.query(Q, k=k, epsilon=0.1)
+            Tt = t.transform(Q)
+            got = csr_triples(Tt)
+        except Exception as e:  # noqa
+            res.violation("transformer:dense32:%s:exception" % metric, "%s: %s" % (type(e).__name__, str(e)[:200]), case)
+            continue
+        res.case(("unfilled", metric, n, k, zero_q), nontrivial=bool((qi < 0).any()), sample={**case, "unfilled_slots": int((qi < 0).sum())})
+        res.count("unfilled_case"); res.traces += 1
+        if Tt.shape != (6, n) or got != expect_triples(qi, qd):
+            bad = [g for g in got if g[1] < 0 or g[1] >= n][:3]
+            res.violation("transformer:dense32:%s:unfilled" % metric, "transform stores entries that are not neighbours the index found "
+                          "(shape %s, entries outside the fitted rows: %s; %d unfilled slots in the answer)" % (Tt.shape, bad, int((qi < 0).sum())), case)
+
+
 def run(res, tier, seed, search):
     rng = np.random.default_rng(seed + 1818)
     res.rule = ("(metric, data kind) x sizes x transformer parameters (n_neighbors, search_epsilon, metric_kwds, tree_init, low_memory, n_jobs); "
@@ -115,6 +141,7 @@ def run(res, tier, seed, search):
     if search:
         reps *= 3
     epsilon_case(res, rng)
+    unfilled_case(res, rng)
     start = (seed * nc) % len(COMBOS)
     for i in range(nc):
         metric, kind = COMBOS[(start + i) % len(COMBOS)]
